@@ -82,6 +82,11 @@ def generate(rng, tier):
             # the server looks the account up by the name the client sent: for another username the server
             # uses ITS stored record (username us) and must reject
             srv(s.A32, e["M1"], kind)
+        # over-long credentials that BEGIN with the right ones (total length = real length + 256*k): refused before anything else happens
+        for pad in (256, 512, 768, 65536):
+            for uc, pc, kind in ((us, ps + "x" * pad, "over-long-password-with-right-prefix"), (us + "Y" * pad, ps, "over-long-username-with-right-prefix"),
+                                 (us, ps + " " * pad, "over-long-password-with-right-prefix")):
+                cs.append(Case(login_line(us, ps, uc, pc, 0, salt, b, a, chal), kind, "fail credentials ~0"))
         # client side: M2 flips
         base = "%s %s 7 %s %s %s" % (enc(us), enc(ps), N_LE.hex(), s.B32.hex(), salt.hex())
         cs.append(Case("cli.verify %s %s | %s" % (base, s.M2.hex(), a.hex()), "baseline-accept-M2", "ok %s ~32" % s.K.hex()))
